@@ -51,12 +51,15 @@ class C20(Spec):
     anchors = ["randx.WeightedSampling", "randx.sampleHeap.*"]
     harness = "c20"
     driver = "drv_sample"
+    shrink_sep = " ; "
     rule = ("one ws case = one WeightedSampling(m, n, w) call on a re-seeded math/rand stream whose n uniform draws the "
             "harness reproduces; the Lean model gets the ORDER RANKS of the n keys and must return the same index slice. "
             "kind=ex: ranks computed exactly (big integers, u_i^c_j vs u_j^c_i for w_i = c_i*scale, scale over 12 magnitudes "
             "from 5e-324 to 1e300), near-ties dropped; kind=perm/tie: weights arranged so that the float keys realise a "
             "prescribed strict / weak order (every permutation and every weak order exhaustively for small n, all m); "
-            "kind=off: weights 0/+Inf/negative (keys -Inf/+Inf/NaN). stat lines: seeded frequency test, 6 sigma. "
+            "kind=off: weights 0/+Inf/negative (keys -Inf/+Inf/NaN). wseq lines: a call whose getWeight panics at index 0/1/k/n-1 "
+            "(or nil callback, or invalid arguments), recovered by the caller, followed in the same process by valid calls, every "
+            "valid call judged and compared as a ws case (the model is stateless). stat lines: seeded frequency test, 6 sigma. "
             "distinct by script line; non-trivial = 1 <= m <= n and n >= 2")
     trusted_base = [
         "container/heap: transcribed in Got.Model.GoHeap (not trusted by contract); math/rand, math.Log: outside the model — "
@@ -78,8 +81,33 @@ class C20(Spec):
             return ("crash-or-hang", "harness produced no observation: " + impl[:200])
         if w[0] == "stat":
             return self.oracle_stat(w, impl)
+        if script.startswith("wseq | "):
+            return self.oracle_seq(script, impl)
         if w[0] != "ws":
             return None
+        return self.oracle_ws(w, impl)
+
+    def oracle_seq(self, script, impl):
+        """calls made one after the other in one process: every VALID call is judged exactly like a `ws` line, whatever
+        happened before it (a recovered panic in an earlier call must not influence it)"""
+        calls = script[7:].split(" ; ")
+        answers = impl.split(" ; ")
+        if len(answers) != len(calls):
+            return ("malformed", "unexpected harness output: " + impl[:200])
+        before = []
+        for call, ans in zip(calls, answers):
+            w = call.split()
+            if w and w[0] == "v":
+                o = self.oracle_ws(["ws"] + w[1:], ans)
+                if o is not None:
+                    ctx = (" [call #%d of the line; earlier calls in the same process: %s]" % (len(before) + 1, "; ".join(before))) if before else ""
+                    return (o[0], "WeightedSampling(%s, %d, ..) returned `%s`: %s%s" % (w[2], len(w[3][2:].split(",")), ans, o[1], ctx))
+                before.append("valid call -> " + ans)
+            else:
+                before.append("%s -> %s" % (" ".join(w[:1] + w[2:] if w and w[0] == "pw" else w), ans))
+        return None
+
+    def oracle_ws(self, w, impl):
         f = fields(w[3:])
         m = int(w[2])
         weights, us = flist(f.get("w", "")), flist(f.get("u", ""))
@@ -166,7 +194,7 @@ class C20(Spec):
 
     def nontrivial(self, script, impl):
         w = script.split()
-        if w[0] == "stat":
+        if w[0] == "stat" or w[0] == "wseq":
             return True
         if w[0] != "ws":
             return False
